@@ -27,7 +27,8 @@ RULE = ('contexts = all words over {IF, THEN, ELSE, TRY, EXCEPT, LOOP, CALL, '
         'signature-related instruction, check_template plugin, INVOKE and '
         'CHECK_TRANSFER contracts; each with the setting on / off / default. '
         'distinct = by (context word, probe, configuration); non-trivial = '
-        'nesting depth >= 1')
+        'nesting depth >= 1'
+        ' [plus integer flag values (0 / 1), a process-wide REGISTERED extension in force / switched off for the run / replaced for the run, a bound-method extension and per-object call counts of the supplied contracts, the same probes as the 2nd / 3rd script of run_auth_scripts]')
 ASSUMPTIONS = [
     'context wrappers are stack-neutral; probes push their own inputs and '
     'clean up',
